@@ -114,6 +114,27 @@ def _from_obj(v, kdir, out, depth):
             _from_obj(w, kdir, out, depth + 1)
 
 
+_ACCESS_OPS = {'STORE_SUBSCR', 'DELETE_SUBSCR', 'BINARY_SUBSCR', 'CONTAINS_OP', 'STORE_ATTR', 'STORE_GLOBAL', 'DELETE_ATTR'}
+_ACCESS_METHODS = {'setdefault', 'pop', 'update', 'get', 'append', 'clear', 'popitem', 'insert', 'remove', 'extend'}
+
+
+def access_lines(codes):
+    """(code, line) pairs of cache-critical functions whose line reads or writes a container element or an
+    attribute: the places where stopping a thread *before* the line separates a check from its act."""
+    import dis
+    out = set()
+    for c in codes:
+        for ins in dis.get_instructions(c):
+            line = ins.positions.lineno if ins.positions else None
+            if line is None:
+                continue
+            if ins.opname in _ACCESS_OPS:
+                out.add((c, line))
+            elif ins.opname in ('LOAD_ATTR', 'LOAD_METHOD') and ins.argval in _ACCESS_METHODS:
+                out.add((c, line))
+    return out
+
+
 def critical_codes(codes):
     """Cache-critical functions: everything in operator_dict.py plus the lazily filled tables, the
     cached properties and `register`.  Chosen by file / qualname at run time."""
@@ -302,6 +323,7 @@ class Sim:
         self.code_idx = {c: i for i, c in enumerate(self.codes)}
         crit = critical_codes(self.codes)
         self.crit = set(crit)
+        self.access = access_lines(crit)
         try:
             mon.use_tool_id(TOOL, 'kingdon-verif-sim')
         except ValueError:
@@ -449,7 +471,7 @@ class Sim:
         f = t.fault
         if f is not None and not f['fired']:
             self._maybe_fault(t, f, code)
-        nxt = self._choose(t, code)
+        nxt = self._choose(t, code, line)
         if nxt is not t:
             self._switch(t, nxt, code, line)
 
@@ -553,6 +575,17 @@ class Sim:
             est = p.get('est_steps', 30000)
             self.pct_points = {self.rng.randrange(1, est) for _ in range(p.get('k', 2))}
             self._pct_low = 99
+        elif p['kind'] == 'pcta':
+            # PCT whose change points are counted on container/attribute access lines of critical functions
+            n = len(self.threads)
+            prios = list(range(n))
+            self.rng.shuffle(prios)
+            for t, pr in zip(self.threads, prios):
+                t.prio = pr + 100
+            est = p.get('est', 80)
+            self.pctc_points = {self.rng.randrange(1, est) for _ in range(p.get('k', 1))}
+            self.crit_steps = 0
+            self._pct_low = 99
         elif p['kind'] == 'pctc':
             # PCT whose priority-change points are counted on line events inside cache-critical functions
             n = len(self.threads)
@@ -585,7 +618,7 @@ class Sim:
                 if tid < len(self.threads):
                     return self.threads[tid]
             return self.threads[0]
-        if self.policy['kind'] in ('pct', 'pctc'):
+        if self.policy['kind'] in ('pct', 'pctc', 'pcta'):
             return max(self.threads, key=lambda x: x.prio)
         return self.rng.choice(self.threads)
 
@@ -598,7 +631,7 @@ class Sim:
                         return c
             self.misaligned += 1
             return min(cands, key=lambda x: x.tid)
-        if self.policy['kind'] in ('pct', 'pctc'):
+        if self.policy['kind'] in ('pct', 'pctc', 'pcta'):
             return max(cands, key=lambda x: x.prio)
         return self.rng.choice(cands)
 
@@ -608,7 +641,7 @@ class Sim:
             return None
         return self._pick_among(cands)
 
-    def _choose(self, t, code):
+    def _choose(self, t, code, line=None):
         if self.replay:
             segs = self.sched_in
             if self.si >= len(segs):
@@ -660,6 +693,13 @@ class Sim:
                 self._pct_low -= 1
             best = max(self._runnable(), key=lambda x: x.prio)
             return best
+        if kind == 'pcta':
+            if code is not None and (code, line) in self.access:
+                self.crit_steps += 1
+                if self.crit_steps in self.pctc_points:
+                    t.prio = self._pct_low
+                    self._pct_low -= 1
+            return max(self._runnable(), key=lambda x: x.prio)
         if kind == 'pctc':
             if code in self.crit:
                 self.crit_steps += 1
